@@ -2,7 +2,7 @@
    pre-state of every DeliverTx / EndBlock / BeginBlock and must produce the observed post-state. *)
 From Coq Require Import ZArith List Bool Uint63.
 From RecordUpdate Require Import RecordUpdate.
-From Sif Require Import Base.Outcome Base.Store Base.Bank Model.ClpTypes Model.ClpState Model.ClpHooks Model.ClpMsgs
+From Sif Require Import Base.Outcome Base.Store Base.Bank Model.ClpTypes Model.ClpState Model.ClpHooks Model.ClpMsgs Model.ClpEpoch
   Check.Eq Check.Decode Check.DecClp.
 Import ListNotations.
 Local Open Scope Z_scope.
@@ -23,18 +23,20 @@ Definition dMsg : dec clp_msg :=
 Inductive step :=
 | STx (m : clp_msg) (fee : Z)
 | SEnd
-| SBegin.
+| SBegin (epoch : bool).
 
 Definition step_case := (Z * step * bool * clp_state * clp_state)%type.
 Definition dStep : dec step_case :=
   id <- dZ ;; k <- dZ ;;
   st <- (if k =? 1 then m <- dMsg ;; fee <- dZ ;; dRet (STx m fee)
-         else if k =? 2 then dRet SEnd else dRet SBegin) ;;
+         else if k =? 2 then dRet SEnd else ep <- dBool ;; dRet (SBegin ep)) ;;
   ok <- dBool ;; pre <- dClp ;; post <- dClp ;; dRet (id, st, ok, pre, post).
 
-(* BeginBlock: with no ratio-shifting policy period, no liquidity protection, no margin pools and no
-   epoch boundary, the clp-visible state is unchanged (height aside). *)
-Definition begin_block (s : clp_state) : Outcome clp_state := Ok s.
+(* BeginBlock: with no ratio-shifting policy period, no liquidity protection and no margin pools, the
+   clp-visible state changes only when the rewards epoch ended in this block (epochs BeginBlocker ->
+   AfterEpochEnd).  Whether it ended is an input observed by the harness (x/epochs is not modelled). *)
+Definition begin_block (s : clp_state) (epoch : bool) : Outcome clp_state :=
+  if epoch then after_epoch_end s else Ok s.
 
 Definition step_mismatch (c : step_case) : option (Z * Z) :=
   let '(id, st, ok, pre, post) := c in
@@ -48,8 +50,8 @@ Definition step_mismatch (c : step_case) : option (Z * Z) :=
     | Ok (s', _, _) => if negb ok then Some (id, 1) else let d := clp_diff s' post in if d =? 0 then None else Some (id, d)
     | _ => if ok then Some (id, 1) else None
     end
-  | SBegin =>
-    match begin_block pre with
+  | SBegin ep =>
+    match begin_block pre ep with
     | Ok s' =>
       if negb ok then Some (id, 1) else
       (* rowan supply moves in BeginBlock through x/mint and the dispensation mint (C20); not clp state *)
